@@ -3,6 +3,7 @@
                                            read_file_using_fast_csv_reader (window / regrowth driver)
      exetera/io/field_importers.py         IndexedStringImporter.import_part / write_part
      exetera/io/parsers.py                 read_csv_with_schema_dict: column_offsets, include/exclude, index_map
+   This is the code WITH the repairs work/C05/fix-F-C05{a,c,d,e,b}.diff applied (each repaired line is marked).
    Statement by statement; proof-free.  Bytes are Z in 0..255.  The constants the driver
    passes (escape, separator, newline, whitespace) are fixed here as the driver fixes them. *)
 From Coq Require Import ZArith List Bool.
@@ -14,6 +15,7 @@ Definition ESC : Z := 34.
 Definition SEP : Z := 44.
 Definition NL : Z := 10.
 Definition WS : Z := 32.
+Definition CR : Z := 13.      (* carriage_return_value, local constant of the kernel (fix F-C05b) *)
 
 (* ---- numpy arrays ----------------------------------------------------------------- *)
 Definition zeros (n:Z) : list Z := repeat 0 (Z.to_nat n).
@@ -71,10 +73,14 @@ Definition classify (src:list Z) (index c:Z) (esc cand:bool) (icstart eol:Z)
     else if index + 1 <? len src then
       do x <- get 2 src (index + 1);
       if x =? ESC then Ok (false, false, false, esc, true, eol)
-      else if (x =? SEP) || (x =? NL) then Ok (false, false, false, false, cand, eol)
+      else if (x =? SEP) || (x =? NL) || (x =? CR) then Ok (false, false, false, false, cand, eol)   (* CR: fix F-C05b *)
       else Raise E_Other                                  (* 'invalid double quote' *)
     else if index + 1 =? len src then Ok (false, false, false, esc, cand, eol)   (* retry in next chunk *)
     else Raise E_Other
+  else if (c =? CR) && negb esc && (index + 1 <? len src) then           (* fix F-C05b: the CR of a CRLF line break *)
+    do x <- get 12 src (index + 1);
+    if x =? NL then Ok (false, false, false, esc, cand, eol)
+    else Ok (true, false, false, esc, cand, eol)
   else Ok (true, false, false, esc, cand, eol).
 
 (* lines 283-284: while index + 1 < len(source) and source[index + 1] == whitespace_value: index += 1 *)
@@ -138,17 +144,29 @@ Fixpoint fsm_loop (fuel:nat) (src offs:list Z) (maxrow:Z) (s:st) : res fout :=
     else fsm_loop f src offs maxrow s'
   end.
 
-(* lines 180-204 *)
-Definition fsm_init (start_index:Z) (inds:arr2) (vals offs:list Z) (hasHeader:bool) : res st :=
+(* fix F-C05d: while index < len(source) and source[index] == whitespace_value: index += 1 *)
+Fixpoint skip_ws0 (n:nat) (src:list Z) (index:Z) : res Z :=
+  if index <? len src then
+    do x <- get 11 src index;
+    if x =? WS then match n with O => OutOfFuel | S n' => skip_ws0 n' src (index + 1) end
+    else Ok index
+  else Ok index.
+
+(* the prologue of the kernel.  index_for_end_line = start_index - 1 (fix F-C05a),
+   index_for_cur_cell_start = index after the entry blank skip (fixes F-C05c, F-C05d) *)
+Definition fsm_init (src:list Z) (start_index:Z) (inds:arr2) (vals offs:list Z) (hasHeader:bool) : res st :=
   let row := if hasHeader then -1 else 0 in
   do cs <- (if 0 <=? row then get2 9 inds 0 row else Ok 0);
+  do index <- skip_ws0 (length src) src start_index;
   do cvc <- get 10 offs 1;
-  Ok (mkSt start_index 0 0 row (-1) false false 0 cs 0 false false 0 cvc inds vals).
+  Ok (mkSt index (start_index - 1) 0 row (-1) false false 0 cs index false false 0 cvc inds vals).
 
 Definition fast_csv_reader (fuel:nat) (src:list Z) (start_index:Z) (inds:arr2) (vals offs:list Z)
            (hasHeader:bool) : res fout :=
-  do s0 <- fsm_init start_index inds vals offs hasHeader;
-  fsm_loop fuel src offs (fst inds - 1) s0.
+  do s0 <- fsm_init src start_index inds vals offs hasHeader;
+  if s_index s0 =? len src then       (* fix F-C05d: nothing but blanks left in the window *)
+    Ok (mkFout start_index (s_row s0) false false (-1) inds vals false false)
+  else fsm_loop fuel src offs (fst inds - 1) s0.
 
 (* every iteration advances index by at least one *)
 Definition fsm_fuel (src:list Z) (start_index:Z) : nat := S (Z.to_nat (len src - start_index)).
@@ -207,6 +225,8 @@ Definition drv_step (file:list Z) (ncols cbs:Z) (index_map:list Z) (d:dst) : res
     then content0 ++ [NL] else content0 in
   (* line 114 *)
   do r <- fast_csv_reader (fsm_fuel content start) content start (d_inds d) (d_vals d) (d_offs d) (d_hdr d);
+  (* fix F-C05a: no record completed, nothing to regrow, nothing consumed *)
+  if negb (f_ifull r) && negb (f_vfull r) && (f_next r <=? 0) then Raise E_ValueError else
   (* lines 117-119 *)
   do imps' <- import_all (f_inds r) (f_vals r) (d_offs d) index_map (f_rows r) (d_imps d);
   (* lines 122-124 *)
@@ -222,11 +242,11 @@ Definition drv_step (file:list Z) (ncols cbs:Z) (index_map:list Z) (d:dst) : res
         Ok (offs', zeros (last offs' 0))
       else Ok (d_offs d, f_vals r));
   (* lines 135-141 *)
-  let full := f_ifull r || f_vfull r in
+  let full := (f_ifull r || f_vfull r) && (f_next r <? len content) in     (* fix F-C05e *)
   let tr := [d_chunk d; start; len content; f_next r; f_rows r; b2z (f_ifull r); b2z (f_vfull r);
              b2z (f_esc r); b2z (f_cand r)] in
   Ok (inl (mkDst (if full then d_chunk d else d_chunk d + f_next r) false (d_acc d + f_rows r)
-                 inds' vals' offs' (f_ifull r) (f_vfull r) content (if full then f_next r else start)
+                 inds' vals' offs' (full && f_ifull r) (full && f_vfull r) content (if full then f_next r else start)
                  imps' (tr :: d_trace d))).
 
 Fixpoint drv_loop (fuel:nat) (file:list Z) (ncols cbs:Z) (index_map:list Z) (d:dst) : res dst :=
